@@ -216,8 +216,10 @@ impl<'v> CheapCallStack<'v> {
 
     pub(crate) fn to_diagnostic_frames(&self, inlined_frames: InlinedFrames) -> CallStack {
         // The first entry is just the entire module, so skip it
+        // (an empty stack, e.g. before or after an evaluation, has nothing to skip).
+        let first = if self.count == 0 { 0 } else { 1 };
         let mut frames = Vec::new();
-        for frame in &self.stack[1..self.count] {
+        for frame in &self.stack[first..self.count] {
             frame.extend_frames(&mut frames);
         }
         inlined_frames.extend_frames(&mut frames);
@@ -226,6 +228,7 @@ impl<'v> CheapCallStack<'v> {
 
     /// List the entries on the stack as values
     pub(crate) fn to_function_values(&self) -> Vec<Value<'v>> {
-        self.stack[1..self.count].map(|x| x.function)
+        let first = if self.count == 0 { 0 } else { 1 };
+        self.stack[first..self.count].map(|x| x.function)
     }
 }
